@@ -78,7 +78,11 @@ func (rg *refGroup) collectSymbols(refname string) (bool, []sizes.RefGroupSymbol
 // gitconfig and returns the result. It is not considered an error if
 // there are no usable config entries for the filter.
 func (rg *refGroup) augmentFromConfig(configger Configger) error {
-	config, err := configger.GetConfig(fmt.Sprintf("refgroup.%s", rg.Symbol))
+	// Note the trailing dot: without it, the settings for a refgroup
+	// whose symbol is "foo" would also be applied to a refgroup whose
+	// symbol is "foo." (i.e., `[refgroup "foo."]`), because a prefix
+	// ending in "." matches anything that follows.
+	config, err := configger.GetConfig(fmt.Sprintf("refgroup.%s.", rg.Symbol))
 	if err != nil {
 		return err
 	}
